@@ -6,7 +6,7 @@ CONSTANTS
   Kinds = {"single"}
   MaxCredit = 2
   MaxTick = 0
-  NP = 2
+  NP = 1
   Limit = 2
   MaxAErr = 0
   MaxFail = 1
